@@ -1,7 +1,7 @@
 #!/usr/bin/env python3
 """Writes a coverage floor (min_cases) into tools/props/Cxx.py from the case counts of the
 current quick-tier evidence: 30% of what the quick run produced per kind (kinds with fewer
-than 3 cases get a floor of 1).  usage: tools/setfloors.py [Cxx ...]"""
+than 3 cases get a floor of 1; kinds listed in the CONF key no_floor get none).  usage: tools/setfloors.py [Cxx ...]"""
 import json, os, re, sys
 ROOT = os.path.dirname(os.path.dirname(os.path.abspath(__file__)))
 ids = sys.argv[1:] or [l.strip() for l in open(os.path.join(ROOT, "tools", "claimed.txt")) if l.strip()]
@@ -10,9 +10,12 @@ for pid in ids:
     if ev.get("tier") != "quick":
         print(pid, "evidence is not from the quick tier; skipped"); continue
     kinds = ev["coverage"].get("case_kinds", {})
-    floors = {k: (max(1, int(v * 0.3)) if v >= 3 else 1) for k, v in sorted(kinds.items())}
     p = os.path.join(ROOT, "tools", "props", pid + ".py")
     s = open(p).read()
+    # CONF key no_floor=[...]: case kinds that a run may legitimately skip on some hosts (with a NOTE): never floored
+    m = re.search(r"\n    no_floor=\[([^\]]*)\]", s)
+    no_floor = set(re.findall(r"'([^']+)'", m.group(1))) if m else set()
+    floors = {k: (max(1, int(v * 0.3)) if v >= 3 else 1) for k, v in sorted(kinds.items()) if k not in no_floor}
     s = re.sub(r"\n    min_cases=\{[^}]*\},", "", s)
     i = s.rindex(")")
     s = s[:i].rstrip()
